@@ -122,6 +122,11 @@ fn check_subject(c: &mut Case, s: &dyn Subject, thorough: bool) -> Outcome {
             for (k, (nm, rows)) in s.extra(&x).into_iter().enumerate() {
                 ensure!(rows.len() == idx.len(), "C03/length/extra-outputs-vs-rows", {"model": name, "output": nm, "batch": bname});
                 for (pos, &i) in idx.iter().enumerate() {
+                    // outputs named "=..." are further calling forms of predict itself
+                    if nm.starts_with('=') {
+                        ensure!(rows[pos] == reference[i], "C03/forms/single-observation-form-differs",
+                            {"model": name, "form": nm, "batch": bname, "row_in_batch": pos, "form_value": rows[pos], "predict": reference[i]});
+                    }
                     let r = &extra_ref[k].1[i];
                     ensure!(rows[pos].len() == r.len(), "C03/length/extra-width", {"model": name, "output": nm});
                     let m = r.iter().fold(0.0f64, |m, v| m.max(v.abs()));
